@@ -43,6 +43,7 @@ func (ex *Exec) VerifyFunc(ct *Contract) (res *FuncResult) {
 		tc.nopanic = ct.NoPanic[0].Label
 	}
 	defer func() {
+		ex.side = nil
 		if r := recover(); r != nil {
 			if u, ok := r.(unsupported); ok {
 				res.Err = u.Error()
@@ -67,6 +68,7 @@ func (ex *Exec) VerifyFunc(ct *Contract) (res *FuncResult) {
 			o.Bounded = tc.bounded
 		}
 	}()
+	ex.side = nil
 	st := ex.NewState()
 	vars := map[string]Val{}
 	var args []Val
@@ -176,6 +178,7 @@ func (ex *Exec) frameObligations(tc *topCtx, fr *frame, st *PState, ct *Contract
 	modState := map[string]bool{}  // ctx param names with modifies state(ctx)
 	modKeys := map[string][]string{} // ctx param -> list of get(...) items
 	modPtr := map[string]bool{}
+	modStores := map[string][]string{} // ctx param -> store names
 	modTrace := false
 	modHeaps := map[string]bool{}
 	for _, m := range ct.Modifies {
@@ -188,6 +191,9 @@ func (ex *Exec) frameObligations(tc *topCtx, fr *frame, st *PState, ct *Contract
 		case strings.HasPrefix(m, "get("):
 			a := splitTop(m[4:len(m)-1], ',')
 			modKeys[a[0]] = append(modKeys[a[0]], m)
+		case strings.HasPrefix(m, "store("):
+			a := splitTop(m[6:len(m)-1], ',')
+			modStores[a[0]] = append(modStores[a[0]], a[1])
 		case m == "trace":
 			modTrace = true
 		case strings.HasPrefix(m, "heap["):
@@ -212,6 +218,14 @@ func (ex *Exec) frameObligations(tc *topCtx, fr *frame, st *PState, ct *Contract
 			cell := App(SInt, "ctx_cell", t)
 			now := Select(st.kv, cell, SState)
 			exp := Select(tc.entry.kv, cell, SState)
+			for _, sn := range modStores[p.Name()] {
+				e, err := ParseSpecExpr(sn)
+				if err != nil {
+					sfail("modifies store %s: %v", sn, err)
+				}
+				sid := env.storeArgSafe(e)
+				exp = Store(exp, sid, Select(now, sid, SStore))
+			}
 			for _, item := range modKeys[p.Name()] {
 				e, err := ParseSpecExpr(item)
 				if err != nil {
@@ -226,8 +240,7 @@ func (ex *Exec) frameObligations(tc *topCtx, fr *frame, st *PState, ct *Contract
 				if err != nil {
 					sfail("modifies %s: %v", item, err)
 				}
-				sk := App("SK", "mkSK", sid, key)
-				exp = Store(exp, sk, Select(now, sk, SBytes))
+				exp = stSet(exp, sid, key, stGet(now, sid, key))
 			}
 			add("state("+p.Name()+") outside modifies", Eq(now, exp))
 			continue
